@@ -212,18 +212,23 @@ PROPS = {
         technique="Coq proof (refinement of the cursor/heap iterator, both fast paths and SeekTo restart, to the specification iterator; program-level theorem) + call-by-call correspondence",
     ),
     "C12": dict(
-        runs=[("history", "", "histrun", 300, 6000, 0)],
+        runs=[("history", "", "histrun", 300, 6000, 0), ("history", "tree", "histtreerun", 240, 4000, 0)],
         corr={"model:footer-segments", "model:persist-kind", "model:walk-chain", "model:revert-content", "model:revert",
               "model:reopen", "model:reopen-footer", "driver-error", "harness-error"}, corr_held=False,
         spec={"spec:round-content", "spec:walk-chain", "spec:previous-content-changed", "spec:previous-error",
-              "spec:revert-content", "spec:revert-refused", "spec:reopen-content"}, spec_held=False,
+              "spec:revert-content", "spec:revert-refused", "spec:reopen-content", "spec:previous-content",
+              "spec:walk-endless"}, spec_held=False,
         rule="6-13 steps per case over one store: persisted rounds (append, leveled partial compaction, forced full "
              "compaction), full walks back from the current snapshot with SnapshotPrevious, SnapshotRevert to a footer "
              "0-3 steps back (collection closed, as documented), close/reopen, and continuation with more rounds; "
              "compared: the segment list of every footer written, the chain of footer offsets of every walk, the content "
              "of every previous snapshot against what was recorded when it was current, the reverted footer against its "
-             "target, the reopened footer; non-trivial = a walk of length >= 1 or a successful revert",
-        technique="Coq proof (footer-chain model: walk after append/compaction/revert, immutability of older footers) + lock-step over previous/revert programs",
+             "target, the reopened footer; non-trivial = a walk of length >= 1 or a successful revert.  Tree mode (240 cases): the "
+             "same programs with child collections one and two levels down (written, created empty, deleted, re-created), "
+             "a third of the cases with ALL data in child collections; every footer written, walked to, reverted to or "
+             "reopened is compared with the tree chain model (PrevTree.v) on offsets and segments and read in full (Get per "
+             "key, iteration, children recursively) against the reference tree of the batches behind it",
+        technique="Coq proof (footer-chain model, flat and with tree footers: walk = history since the last compaction for every accepted history of rounds and reverts; revert exact; immutability of older footers) + lock-step over previous/revert programs",
     ),
     "C15": dict(
         runs=[("refs", "", "refsrun", 64, 1500, 0), ("owners", "", "ownersrun", 26, 260, 0)],
